@@ -185,15 +185,8 @@ func tStore(a, i, v Term) Term {
 	return Term{app("store", a.S, i.S, v.S), a.Sort}
 }
 
-var pow2 = map[int]*big.Int{}
-
 func p2(n int) *big.Int {
-	if v, ok := pow2[n]; ok {
-		return v
-	}
-	v := new(big.Int).Lsh(big.NewInt(1), uint(n))
-	pow2[n] = v
-	return v
+	return new(big.Int).Lsh(big.NewInt(1), uint(n))
 }
 
 // ---------- type registry ----------
